@@ -18,13 +18,21 @@ import (
 type recorder struct {
 	mu    sync.Mutex
 	calls []string
+	muted bool
 }
 
 func (r *recorder) add(s string) {
 	r.mu.Lock()
-	r.calls = append(r.calls, s)
+	if !r.muted {
+		r.calls = append(r.calls, s)
+	}
 	r.mu.Unlock()
 }
+
+// reenterHook, when set, is run by the library function "id" (once per outermost call): the history runner uses it
+// to call the SAME parsed function on another document from inside a user function (re-entrancy on one goroutine).
+var reenterHook func()
+var reenterDepth int
 
 func (r *recorder) take() string {
 	r.mu.Lock()
@@ -60,7 +68,14 @@ func filterFunc(name string, rec *recorder) func(interface{}) (interface{}, erro
 			}
 			return v, nil
 		},
-		"id": func(v interface{}) (interface{}, error) { return v, nil },
+		"id": func(v interface{}) (interface{}, error) {
+			if reenterHook != nil && reenterDepth == 0 {
+				reenterDepth++
+				reenterHook()
+				reenterDepth--
+			}
+			return v, nil
+		},
 	}[name]
 	if body == nil {
 		// a name of the aggregate library registered as a filter function: always fails
